@@ -206,7 +206,9 @@ func TestC18(t *testing.T) {
 			c.Preloaded = kept
 		}
 		cl := gen.Classify(c.Graph)
+		vstat.InFlight("C18", "cache", c)
 		f, nt := oracleC18(c)
+		vstat.ClearInFlight("C18")
 		r.Eval()
 		r.Count("expansions compared (x4 cache states)", len(c.Calls))
 		r.LabelIf(cl.Cyclic, "cyclic")
